@@ -98,9 +98,9 @@ func init() {
 }
 
 func policyOf(cfgName string, replica int) *denyPolicy {
-	for _, c := range c06Cfgs {
-		if c.name == cfgName && replica == 0 && !strings.HasPrefix(c.policy, "allow") {
-			return policyFor(c.policy)
+	if cfg := Configs[cfgName]; cfg != nil && cfg.AC != nil {
+		if pol, ok := cfg.AC(replica).(*denyPolicy); ok {
+			return pol
 		}
 	}
 	return &denyPolicy{}
@@ -442,7 +442,9 @@ func c06Probe(p *run.Part, cfg *seqx.Config, seen *sync.Map) func(w *seqx.World,
 			if n == 0 || n > 5 {
 				continue
 			}
-			key := cfg.Name + fmt.Sprint(w.ML[dst].UIDs(), w.ML[src].UIDs(), dst)
+			// replica states are identified by their head hashes (a Merkle DAG: equal heads, equal history); model
+			// uids are per-world numbers and must not be used across worlds
+			key := cfg.Name + fmt.Sprint(hashesOf(w.Logs[dst].Heads().Slice()), hashesOf(w.Logs[src].Heads().Slice()), dst)
 			if _, dup := seen.LoadOrStore(key, true); dup {
 				continue
 			}
@@ -459,7 +461,7 @@ func c06Probe(p *run.Part, cfg *seqx.Config, seen *sync.Map) func(w *seqx.World,
 			}
 			// truncated destination: the tampered source is the destination's own full history
 			nd := len(w.ML[dst].Set)
-			tkey := cfg.Name + "trunc" + fmt.Sprint(w.ML[dst].UIDs(), dst)
+			tkey := cfg.Name + "trunc" + fmt.Sprint(hashesOf(w.Logs[dst].Heads().Slice()), dst)
 			if _, dup := seen.LoadOrStore(tkey, true); !dup && nd >= 2 && nd <= 5 {
 				for k := 1; k < nd; k++ {
 					for pos := 0; pos < nd; pos++ {
